@@ -100,6 +100,7 @@ func (C10) Gen(r *simrt.RNG, tier string) core.Case {
 		return RCase{W: genErrorHistory(r)}
 	}
 	cfg := world.SwarmCfg(r)
+	world.Deepen(&cfg, r, tier)
 	cfg.MaxParams = 1
 	var w world.World
 	if r.Chance(3, 4) {
